@@ -175,8 +175,9 @@ Theorem C04_instantiations_stay_example :
 Proof. exact (conj ex7_RegistryOf ex7_hypotheses). Qed.
 Print Assumptions C04_instantiations_stay_example.
 
-(** REFUTATION of the statement without the fragment (on the faithful model; to be replayed on
-    the implementation): [a::D<T, U> { a: Wrap<T>, b: U }], [a::Wrap<X> { v: Vec<X> }] at
+(** REFUTATION of the statement without the fragment (on the faithful model, and reproduced on
+    the implementation: corpus/findings/F19_nested_outer_coincidence.json replayed through
+    [./check.sh C04 quick --replay ..] gives DuplicateTypePath and the renaming a::D1 / a::D2): [a::D<T, U> { a: Wrap<T>, b: U }], [a::Wrap<X> { v: Vec<X> }] at
     [(u8, Vec<u8>)] and [(u16, Vec<u16>)].  The registry is program-derived, ALL FOUR interned
     instantiations are coincidence-free in the sense of [instantiation_cf] (the three conditions
     of C05's quantifier read on the source field types of one definition), the registry is
